@@ -6,7 +6,8 @@ Property theorems only (helpers: `Gotlcp.Lemmas.ClientAuthn`).  The model is
 source (`paramsOf`); the spec is `Gotlcp.Spec.ClientAuthn`.  Every theorem quantifies over ALL
 verdict vectors (any number of certificates, any chain verdicts, any key kinds, any
 ServerKeyExchange or none, any abstract signature scheme `verify`, any randoms / parameters,
-any Finished verdict, any cached session) and both stacks — nothing is enumerated.
+any Finished verdict, any cached session, any verdicts of the user callbacks
+`VerifyPeerCertificate` / `VerifyConnection`) and both stacks — nothing is enumerated.
 
 Trusted (inputs of the model, see checks/C02.json): smx509 path / validity / name
 verification, SM2, the PRF.  `C02_pop_means_key` states under which *symbolic* laws of those
@@ -27,7 +28,8 @@ below) when ServerKeyExchange becomes optional again (F1), when a certificate is
 chain-verified, when a `VerifyOptions` field is dropped, when resumption stops re-verifying
 the recorded certificates (F13), when `readFinished` leaves a branch of `handshake()`, when
 the Finished comparison changes, when completion is recorded anywhere but after both
-branches, or when the session cache's eviction leaves the evicted session with a wiped but
+branches, when a user callback is mentioned anywhere but in a block that can only refuse
+(`if c.config.N != nil { if err := c.config.N(…); err != nil { …; return err } }`), or when the session cache's eviction leaves the evicted session with a wiped but
 still present master secret (a publicly known one), or removes the secret while
 `processServerHello` no longer refuses a session without one (both inside `GoodResume`). -/
 theorem C02_facts :
@@ -52,6 +54,14 @@ theorem C02_facts :
     Facts.tlcp.caStatusStoresElsewhere = 0 ∧ Facts.dtlcp.caStatusStoresElsewhere = 0 ∧
     -- the eviction path of the session cache and the guard of processServerHello were found
     Facts.tlcp.caEvictionPathFound = 1 ∧ Facts.dtlcp.caEvictionPathFound = 1 ∧
+    -- the user callbacks: consulted by verifyServerCertificate after its built-in checks and by
+    -- the resumption branch of handshake(), each time in the shape that can only refuse; no other
+    -- mention of a callback anywhere on the client's path (nothing is conditional on one)
+    Facts.tlcp.caFullCallbacks = ["VerifyPeerCertificate", "VerifyConnection"] ∧
+    Facts.dtlcp.caFullCallbacks = Facts.tlcp.caFullCallbacks ∧
+    Facts.tlcp.caCallbacksAfterBuiltin = true ∧ Facts.dtlcp.caCallbacksAfterBuiltin = true ∧
+    "VerifyConnection" ∈ Facts.tlcp.caResumeSteps ∧ "VerifyConnection" ∈ Facts.dtlcp.caResumeSteps ∧
+    Facts.tlcp.caCallbackRefsOutsideRefusal = 0 ∧ Facts.dtlcp.caCallbackRefsOutsideRefusal = 0 ∧
     Facts.missing = [] := by
   refine ⟨fun st => ?_, ?_⟩
   · cases st <;> decide
@@ -125,7 +135,7 @@ theorem C02_insecure_still_pop (st : Stack) (verify : K → Tbs R P → S → Bo
     exact (C02_full st verify skip v h).2.2
   · -- the flag only enters `verifyServerCertificate`
     have key : ∀ skip, (fullHandshake (paramsOf st) verify skip v).outcome = .completed ↔
-        runSteps (doFullHandshake (paramsOf st) verify skip v) v.finishedOK (paramsOf st).fullSteps = .ok () :=
+        runSteps (doFullHandshake (paramsOf st) verify skip v) v.finishedOK v.cb (paramsOf st).fullSteps = .ok () :=
       fun skip => finish_completed
     have hd := (C02_facts.1 st).1.stepFull
     have vsc : verifyServerCertificate (paramsOf st) false v = .ok () ↔
@@ -167,6 +177,96 @@ def untrustedView : FullView Nat Nat Nat (Nat × Tbs Nat Nat) :=
   { honestView with certs := [⟨100, .ecdsa, false, 1000⟩, ⟨200, .ecdsa, false, 2000⟩] }
 example : (fullHandshake (paramsOf .tlcp) pairVerify true untrustedView).outcome = .completed := by decide
 example : (fullHandshake (paramsOf .tlcp) pairVerify false untrustedView).outcome ≠ .completed := by decide
+
+/-- **The user callbacks can only add a refusal.**  `Config.VerifyPeerCertificate` and
+`Config.VerifyConnection` are arbitrary user code; their verdicts are inputs of the model like
+every other verdict.  For every shape of the source the model covers, every connection and
+every pair of callback verdicts:
+  (1) which branch is taken does not depend on them;
+  (2) a connection that completes with callbacks installed completes with none installed —
+      no callback makes a handshake succeed that the built-in checks refuse;
+  (3) callbacks that return nil change nothing at all. -/
+theorem C02_callbacks_only_refuse (p : Params) (verify : K → Tbs R P → S → Bool) (skip : Bool)
+    (c : ConnView K R P S) :
+    (connect p verify skip c.noCallbacks).resumed = (connect p verify skip c).resumed ∧
+    ((connect p verify skip c).result.outcome = .completed →
+      (connect p verify skip c.noCallbacks).result.outcome = .completed) ∧
+    (Callbacks.accept c.full.cb → (∀ s, c.session = some s → Callbacks.accept s.cb) →
+      connect p verify skip c = connect p verify skip c.noCallbacks) := by
+  obtain ⟨sess, full⟩ := c
+  cases sess with
+  | none =>
+    refine ⟨rfl, fun h => ?_, fun ha _ => ?_⟩
+    · exact full_mono (by simpa [connect] using h)
+    · simp only [connect, ConnView.noCallbacks, Option.map_none]
+      rw [full_accept ha]
+  | some s =>
+    simp only [connect, ConnView.noCallbacks, Option.map_some, takesResume_noCallbacks]
+    by_cases ht : takesResume p skip s = true
+    · simp only [ht, if_true]
+      exact ⟨trivial, resumed_mono, fun _ hs => by rw [resumed_accept (hs s rfl)]⟩
+    · simp only [ht, Bool.false_eq_true, if_false]
+      exact ⟨trivial, full_mono, fun ha _ => by rw [full_accept ha]⟩
+
+/-- **The built-in checks are never waived.**  Whatever callbacks the configuration installs and
+whatever they answer, a full handshake of this tree that completes passed every built-in check:
+the conclusion of `C02_full` holds for the view, and the same view completes with no callback
+installed.  (`evidenceOf` does not look at the callback verdicts: what user code says is no
+evidence about the peer.) -/
+theorem C02_builtin_checks_never_waived (st : Stack) (verify : K → Tbs R P → S → Bool) (skip : Bool)
+    (v : FullView K R P S) (cb : Callbacks)
+    (h : (fullHandshake (paramsOf st) verify skip { v with cb := cb }).outcome = .completed) :
+    Authenticated (!skip) (evidenceOf verify v) ∧
+    (fullHandshake (paramsOf st) verify skip { v with cb := {} }).outcome = .completed :=
+  ⟨C02_full st verify skip { v with cb := cb } h, by
+    have := full_mono h
+    simpa [FullView.noCallbacks] using this⟩
+
+/-- … and the callbacks of this tree are honoured: a full handshake completes only if neither
+installed callback returned an error, a resumed one only if `VerifyConnection` did not
+(`VerifyPeerCertificate` is not consulted on resumption, as in crypto/tls: the recorded
+certificates passed it when the session was created). -/
+theorem C02_callback_refusal_honoured (st : Stack) (verify : K → Tbs R P → S → Bool) (skip : Bool) :
+    (∀ v : FullView K R P S, (fullHandshake (paramsOf st) verify skip v).outcome = .completed →
+      Callbacks.accept v.cb) ∧
+    (∀ s : SessView, (resumedHandshake (paramsOf st) s).outcome = .completed → s.cb.vc ≠ some false) := by
+  constructor
+  · intro v h
+    have hc := full_completed_callbacks (C02_facts.1 st).1.stepFull h
+    have hl : (paramsOf st).fullCallbacks = ["VerifyPeerCertificate", "VerifyConnection"] := by
+      cases st <;> decide
+    rw [hl] at hc
+    exact ⟨runCallback_vpc (hc _ (by simp)), runCallback_vc (hc _ (by simp))⟩
+  · intro s h
+    have hv : "VerifyConnection" ∈ (paramsOf st).resumeSteps := by cases st <;> decide
+    exact resumed_completed_vc hv h
+
+/-- non-vacuity: the honest view completes under accepting callbacks and fails under a refusing
+one; the untrusted view fails under an accepting callback (the configuration of a client that
+adds a policy of its own to the normal verification) exactly as without -/
+example : (fullHandshake (paramsOf .dtlcp) pairVerify false
+    { honestView with cb := ⟨some true, some true⟩ }).outcome = .completed := by decide
+example : (fullHandshake (paramsOf .dtlcp) pairVerify false
+    { honestView with cb := ⟨some false, none⟩ }).outcome = .failed "verify-peer-certificate" "bad_certificate" := by decide
+example : (fullHandshake (paramsOf .tlcp) pairVerify true
+    { honestView with cb := ⟨none, some false⟩ }).outcome = .failed "verify-connection" "bad_certificate" := by decide
+example : (fullHandshake (paramsOf .dtlcp) pairVerify false
+    { untrustedView with cb := ⟨some true, none⟩ }).outcome = .failed "certificate-chain" "bad_certificate" := by decide
+
+/-- **(negation) a callback that may waive the chain check.**  Were a failed chain verification
+fatal only when no `VerifyPeerCertificate` is installed — "the callback decides" — the model of
+that source would be `waivingVerify` below, and `C02_full` is false for it: a verifying client
+with a callback that accepts completes with the untrusted view. -/
+def waivingSkip (skip : Bool) (cb : Callbacks) : Bool := skip || cb.vpc.isSome
+
+theorem C02_full_false_when_callback_waives :
+    ¬ ∀ (v : FullView Nat Nat Nat (Nat × Tbs Nat Nat)),
+      (fullHandshake (paramsOf .dtlcp) pairVerify (waivingSkip false v.cb) v).outcome = .completed →
+      Authenticated true (evidenceOf pairVerify v) := by
+  intro h
+  have := h { untrustedView with cb := ⟨some true, none⟩ } (by decide)
+  revert this
+  decide
 
 /-- **Resumption.**  If a connection completes on the resumption branch, the peer's Finished was
 the correct one for the master secret of the session being resumed (not merely for whatever
@@ -217,6 +317,10 @@ example : connect (paramsOf .tlcp) pairVerify false ⟨some honestSess, honestVi
     ⟨⟨.completed, 1⟩, true⟩ := by decide
 example : connect (paramsOf .dtlcp) pairVerify false ⟨some { honestSess with chainEnc := false }, untrustedView⟩ =
     ⟨⟨.failed "certificate-chain" "bad_certificate", 0⟩, false⟩ := by decide
+/-- … a resumed connection does not consult `VerifyPeerCertificate`, and honours `VerifyConnection` -/
+example : (resumedHandshake (paramsOf .tlcp) { honestSess with cb := ⟨some false, some true⟩ }).outcome = .completed := by decide
+example : (resumedHandshake (paramsOf .tlcp) { honestSess with cb := ⟨none, some false⟩ }).outcome =
+    .failed "verify-connection" "bad_certificate" := by decide
 
 /-- **A secret the cache wiped is never used.**  Whenever other connections' sessions push the
 entry out of the cache — after `SessionCache.Get` handed it to `loadSession` and before
